@@ -49,7 +49,8 @@ func profile(name string) Profile {
 		mul(2, "xchg", "rm", "set", "assign", "bxchg", "view")
 	case "handles": // C02
 		mul(3, "new", "rm", "bbatch", "brm", "alive", "stats")
-		mul(3, "reset", "dumpload")
+		mul(3, "reset")
+		mul(8, "dumpload")
 	case "query": // C03
 		mul(4, "qscan", "qopen")
 		mul(2, "bxchg", "bsetrel", "bbatchq")
@@ -63,9 +64,12 @@ func profile(name string) Profile {
 		mul(5, "bxchg", "bsetrel", "brm", "bbatch", "bbatchq")
 	case "lock": // C09
 		mul(6, "qopen")
+		mul(5, "reg")
+		mul(3, "creg", "cunreg")
 		p.illegal = 0.05
 	case "illegal": // C10
 		p.illegal = 0.4
+		mul(4, "creg", "cunreg", "res")
 	case "events": // C11
 		p.listener = 1
 		mul(2, "bxchg", "bsetrel", "brm", "bbatch", "bbatchq", "relset", "relxchg")
@@ -108,6 +112,8 @@ type G struct {
 	cached []cachedInfo
 	nRes   int
 	nextK  int // next type key to register
+	nWorlds int
+	flushEach bool
 	stats  map[string]int
 	npanic int
 	nops   int
@@ -120,6 +126,9 @@ func (g *G) emit(cmd string, args ...string) string {
 		line += " " + strings.Join(args, " ")
 	}
 	fmt.Fprintln(g.out, line)
+	if g.flushEach {
+		g.out.Flush() // the OP line must be on disk before the implementation runs it
+	}
 	lines := g.h.run(g.idx, g.wk, cmd, args)
 	for _, l := range lines {
 		fmt.Fprintln(g.out, l)
@@ -582,10 +591,30 @@ func (g *G) illegalOp() bool {
 		} else {
 			g.emit("RESRM", strconv.Itoa(i))
 		}
-	case 11: // double registration of a cached filter
+	case 11: // double registration of a cached filter; use of an unregistered one
+		if g.rng.Intn(2) == 0 {
+			for k, c := range g.cached {
+				if c.alive {
+					g.emit("CREG", "C", strconv.Itoa(k))
+					return true
+				}
+			}
+			return false
+		}
 		for k, c := range g.cached {
-			if c.alive {
-				g.emit("CREG", "C", strconv.Itoa(k))
+			if !c.alive && g.rng.Intn(2) == 0 {
+				ks := strconv.Itoa(k)
+				switch g.rng.Intn(4) {
+				case 0:
+					g.emit("CUNREG", ks)
+				case 1:
+					g.emit("QUERY", "C", ks)
+				case 2:
+					g.emit("BRM", "C", ks)
+				default:
+					g.emit("QSCAN", "C", ks)
+				}
+				g.emit("LOCKED")
 				return true
 			}
 		}
@@ -733,8 +762,9 @@ func (g *G) legalOp(kind string) bool {
 			return false
 		}
 		s := g.x.epoch + g.rng.Intn(len(g.x.slots)-g.x.epoch)
-		if s == 0 {
-			return false
+		if s == 0 || g.rng.Intn(12) == 0 {
+			g.emit("ALIVE", "s0") // the zero entity is never alive
+			return true
 		}
 		g.emit("ALIVE", sl(s))
 	case "relset":
@@ -913,7 +943,7 @@ func (g *G) legalOp(kind string) bool {
 		a := g.emit("QSCAN", "C", strconv.Itoa(k))
 		b := g.emit("QSCAN", g.cached[k].toks...)
 		if a != b {
-			fmt.Fprintf(g.out, "CHK %d FAIL cached filter %d selects %q, original selects %q\n", g.idx-1, k, a, b)
+			fmt.Fprintf(g.out, "CHK %d FAIL cached filter %d (%s) selects %q, original selects %q\n", g.idx-1, k, strings.Join(g.cached[k].toks, " "), a, b)
 		}
 	case "reset":
 		g.emit("RESET")
@@ -923,7 +953,10 @@ func (g *G) legalOp(kind string) bool {
 		if !strings.HasPrefix(res, "dump") {
 			return true
 		}
-		_ = res
+		if g.rng.Float64() < 0.5 {
+			return true
+		}
+		g.loadIntoNewWorld()
 	case "reg":
 		if len(g.x.comps) >= g.p.maxComps {
 			return false
@@ -1018,6 +1051,46 @@ func (g *G) liveCachedWithToks(f []string) int {
 		}
 	}
 	return -1
+}
+
+// loadIntoNewWorld: the last dump is loaded into a fresh (or populated-then-reset)
+// world with another capacity increment; the history continues on the loaded world, so
+// every later creation and removal is compared with the model's pool.
+func (g *G) loadIntoNewWorld() {
+	d := len(g.h.dumps) - 1
+	ds := "d" + strconv.Itoa(d)
+	// refused: the dumped world itself still has (or had) entities
+	if g.x.w.Stats().Entities.Total > 0 && g.rng.Float64() < 0.4 {
+		g.emit("LOAD", ds)
+	}
+	oldComps := g.x.comps
+	g.nWorlds++
+	g.wk = g.nWorlds
+	capincs := []int{1, 2, 3, 8, 128}
+	g.emit("NEWWORLD", strconv.Itoa(capincs[g.rng.Intn(len(capincs))]), strconv.Itoa(g.rng.Intn(3)), strconv.Itoa(ecs.MaskTotalBits))
+	g.x = g.h.worlds[g.wk]
+	g.cached = nil
+	g.nRes = 0
+	for _, c := range oldComps {
+		g.emit("REG", strconv.Itoa(c.key), strconv.Itoa(b01(c.isRel)), strconv.Itoa(b01(c.zs)))
+	}
+	if g.rng.Float64() < 0.4 {
+		// a world that had entities and was reset is as good as a fresh one
+		n := 1 + g.rng.Intn(5)
+		for i := 0; i < n; i++ {
+			g.emit("NEW", "-")
+		}
+		if g.rng.Intn(2) == 0 {
+			g.emit("RM", sl(1))
+		}
+		if g.rng.Float64() < 0.25 {
+			g.emit("LOAD", ds) // refused: not reset
+		}
+		g.emit("RESET")
+	}
+	g.emit("LOAD", ds)
+	g.emit("_DUMPCMP", ds)
+	g.emit("STATS")
 }
 
 // after a Q-variant batch: usually iterate the returned query at once
@@ -1130,13 +1203,14 @@ func (g *G) probe() {
 			g.emit("ALIVE", sl(s))
 		}
 	}
+	g.emit("ALIVE", "s0")
 	// every registered filter, cached and uncached
 	for k, c := range g.cached {
 		if c.alive {
 			a := g.emit("QSCAN", "C", strconv.Itoa(k))
 			b := g.emit("QSCAN", c.toks...)
 			if a != b {
-				fmt.Fprintf(g.out, "CHK %d FAIL cached filter %d selects %q, original selects %q\n", g.idx-1, k, a, b)
+				fmt.Fprintf(g.out, "CHK %d FAIL cached filter %d (%s) selects %q, original selects %q\n", g.idx-1, k, strings.Join(g.cached[k].toks, " "), a, b)
 			}
 		}
 	}
